@@ -298,7 +298,7 @@ func init() {
 	register("C02", Rule{"R03a", ruleNoWriteThrough}, Rule{"R01d", ruleRowsMixing})
 	register("C04", Rule{"R03a", ruleNoWriteThrough}, Rule{"R01d", ruleRowsMixing})
 	register("C05", Rule{"R03a", ruleNoWriteThrough})
-	register("C07", Rule{"R06d", ruleComparatorProvenance})
+	register("C07", Rule{"R06d", ruleComparatorProvenance}, Rule{"R02e", ruleLayoutIndependentHash})
 	register("C12", Rule{"R07b", ruleOrderedOutput})
 	register("C10", Rule{"R17d", ruleMapMissDeref}, Rule{"R17e", ruleActorRecover}, Rule{"R16d", ruleReentrantWait}, Rule{"R17a", ruleActorNoSelfComm})
 }
